@@ -210,7 +210,11 @@ type exploreCase struct {
 	// NoWaitColl: the collector's Close does not wait for a tick in progress (like the repository's own test
 	// collectors), so Close can run to completion between any two steps of a retransmission. Exactly-once (C10)
 	// must survive that; "no handler after Close returned" (C15) presupposes a waiting collector and is not asserted.
-	NoWaitColl bool `json:"no_wait_collector,omitempty"`
+	NoWaitColl  bool `json:"no_wait_collector,omitempty"`
+	NoAftermath bool `json:"no_aftermath,omitempty"`
+	// Delivery (C12): assert that a response arriving while its transaction is in flight reaches that
+	// transaction's handler
+	Delivery bool `json:"delivery,omitempty"`
 }
 
 type exTx struct {
@@ -227,9 +231,14 @@ type exTx struct {
 func runExplore(c exploreCase) (taken []int, trace []string, err error) {
 	noRetrans := c.State == "lastattempt"
 	o := sim.Options{RTO: 100 * time.Millisecond, NoRetransmit: noRetrans, NoConnClose: c.NoConnClose}
-	var fallbackCalls atomic.Int32
+	var fallbackCalls, fallbackResp0 atomic.Int32
 	if c.Fallback {
-		o.Fallback = func(stun.Event) { fallbackCalls.Add(1) }
+		o.Fallback = func(e stun.Event) {
+			fallbackCalls.Add(1)
+			if e.Error == nil && e.TransactionID == txID(0) {
+				fallbackResp0.Add(1)
+			}
+		}
 	}
 	w, werr := sim.NewWorld(o)
 	if werr != nil {
@@ -381,6 +390,46 @@ func runExplore(c exploreCase) (taken []int, trace []string, err error) {
 	}
 	taken = s.run(c.Schedule, launchB, c.LateB)
 	s.disable()
+	// what every handler had seen when the explored window ended
+	type seen struct {
+		n    int
+		kind string
+	}
+	txMu.Lock()
+	windowTxs := append([]*exTx(nil), txs...)
+	txMu.Unlock()
+	window := make([]seen, len(windowTxs))
+	if c.A != "close" && c.B != "close" {
+		// give A and B a moment to return (a Do may legitimately still be waiting for its callback)
+		for deadline := time.Now().Add(50 * time.Millisecond); time.Now().Before(deadline); {
+			s.mu.Lock()
+			both := s.done["A"] && s.done["B"]
+			s.mu.Unlock()
+			if both {
+				break
+			}
+			time.Sleep(100 * time.Microsecond)
+		}
+	}
+	for i, t := range windowTxs {
+		k, _ := t.kind.Load().(string)
+		window[i] = seen{int(t.calls.Load()), k}
+	}
+	// ---- aftermath (client still open): the id of transaction 0 is used again once that transaction has
+	// ended, and the clock runs past every deadline. Whatever the interleaving left behind (a stale
+	// registration in the agent or in the client) shows up here: a Start that fails must stay silent.
+	if c.A != "close" && c.B != "close" && !c.NoAftermath {
+		s.mu.Lock()
+		both := s.done["A"] && s.done["B"]
+		s.mu.Unlock()
+		if both && len(windowTxs) > 0 && windowTxs[0].id == 0 && windowTxs[0].calls.Load() > 0 {
+			t := newTx(0, false)
+			start(t)
+		}
+		for i := 1; i <= 12 && both; i++ {
+			w.Tick(w.Clock.Elapsed() + time.Second)
+		}
+	}
 	// ---- finalisation: close (if nobody did) and wait for everything
 	fin := make(chan struct{})
 	go func() {
@@ -447,7 +496,11 @@ func runExplore(c exploreCase) (taken []int, trace []string, err error) {
 		case n > 0 && t.seq.Load() > cs && !c.NoWaitColl:
 			return taken, trace, fmt.Errorf("id %d: handler invoked after Close returned; schedule %v, gates %v", t.id, taken, trace)
 		}
-		if k, _ := t.kind.Load().(string); k == "timeout" && !noRetrans {
+		k := ""
+		if wi := indexOfTx(windowTxs, t); wi >= 0 {
+			k = window[wi].kind
+		}
+		if k == "timeout" && !noRetrans {
 			// at most one retransmission can have happened in the explored window: a timeout may be
 			// reported only after the last of the 7 retransmissions (a transaction cut short by Close
 			// gets a closed error)
@@ -456,11 +509,36 @@ func runExplore(c exploreCase) (taken []int, trace []string, err error) {
 			return taken, trace, fmt.Errorf("id %d: handler received %s; schedule %v, gates %v", t.id, k, taken, trace)
 		}
 	}
+	// C12 inside the window: a response that arrives while its transaction is in flight reaches that
+	// transaction's handler - whatever the collector is doing with the transaction at that moment. In
+	// these states nothing else can end transaction 0 inside the window (no Close, no failing write, no
+	// exhausted attempts), so its handler must have seen the response.
+	if c.Delivery && c.B == "deliver" && (c.State == "inflight" || c.State == "expired") && c.A != "close" && c.A != "startsame" && len(windowTxs) > 0 {
+		if window[0].kind != "response" {
+			where := "was dropped"
+			if fallbackResp0.Load() > 0 {
+				where = "went to the fallback handler"
+			}
+
+			return taken, trace, fmt.Errorf("the response for transaction 0 arrived while the transaction was in flight (state %s, concurrent %s) but %s; its handler saw %d events (%q); schedule %v, gates %v",
+				c.State, c.A, where, window[0].n, window[0].kind, taken, trace)
+		}
+	}
 	if g := leakedGoroutines(); g != "" {
 		return taken, trace, fmt.Errorf("goroutine left behind after Close:\n%s", g)
 	}
 
 	return taken, trace, nil
+}
+
+func indexOfTx(l []*exTx, t *exTx) int {
+	for i, x := range l {
+		if x == t {
+			return i
+		}
+	}
+
+	return -1
 }
 
 var (
@@ -484,7 +562,9 @@ func exploreAll(t *testing.T, rec *evid.Rec, prop string, budget int, only func(
 	for _, st := range exploreStates {
 		for _, a := range exploreA {
 			for _, b := range exploreB {
-				if st == "empty" && (b == "deliver" || a == "startsame") {
+				if st == "empty" && (b == "deliver" || a == "startsame") && !(a == "startsame" && b == "deliver") {
+					// (empty, startsame, deliver): Start(id 0) with nothing in flight while a datagram carrying
+					// id 0 arrives (a late duplicate of an earlier transaction that used the id)
 					continue
 				}
 				if a == "tick" && b == "tick" {
@@ -501,7 +581,7 @@ func exploreAll(t *testing.T, rec *evid.Rec, prop string, budget int, only func(
 					continue
 				}
 				for v := 0; v < 3; v++ {
-					if v == 1 && !evid.Thorough() && a != "close" && b != "close" {
+					if v == 1 && !evid.Thorough() && a != "close" && b != "close" && prop != "C12" {
 						continue // quick tier: the WithNoConnClose/fallback variant only where Close takes part
 					}
 					if v == 2 && (prop != "C10" || !((a == "tick" && b == "close") || (a == "close" && b == "tick"))) {
@@ -524,7 +604,7 @@ func exploreAll(t *testing.T, rec *evid.Rec, prop string, budget int, only func(
 						ones[i] = 1
 					}
 					for late := 0; late <= evid.Pick(8, 12); late++ {
-						c := exploreCase{State: st, A: a, B: b, NoConnClose: v == 1, Fallback: v == 1, LateB: late, NoWaitColl: v == 2, Schedule: ones}
+						c := exploreCase{State: st, A: a, B: b, NoConnClose: v == 1, Fallback: v == 1, LateB: late, NoWaitColl: v == 2, Schedule: ones, Delivery: prop == "C12"}
 						taken, trace, err := runExplore(c)
 						runs++
 						key := fmt.Sprint(trace)
@@ -540,7 +620,7 @@ func exploreAll(t *testing.T, rec *evid.Rec, prop string, budget int, only func(
 						}
 					}
 					for _, late := range lates {
-						base := exploreCase{State: st, A: a, B: b, NoConnClose: v == 1, Fallback: v == 1, LateB: late, NoWaitColl: v == 2}
+						base := exploreCase{State: st, A: a, B: b, NoConnClose: v == 1, Fallback: v == 1, LateB: late, NoWaitColl: v == 2, Delivery: prop == "C12"}
 						// depth-first search over two-way decisions
 						stack := [][]int{{}}
 						lruns := 0
@@ -620,5 +700,15 @@ func replayExplore(t *testing.T, prop string) {
 	}
 }
 
+// TestC12_Interleavings explores response delivery (reader goroutine) against every other operation:
+// the response of an in-flight transaction must reach its handler whatever the other goroutine is doing.
+func TestC12_Interleavings(t *testing.T) {
+	rec := evid.For("C12")
+	c12Notes(rec)
+	exploreNotes(rec)
+	exploreAll(t, rec, "C12", evid.Pick(21, 600), func(a, b string) bool { return b == "deliver" && a != "close" })
+}
+
 func TestC10_ReplayExplore(t *testing.T) { replayExplore(t, "C10") }
+func TestC12_ReplayExplore(t *testing.T) { replayExplore(t, "C12") }
 func TestC15_ReplayExplore(t *testing.T) { replayExplore(t, "C15") }
